@@ -118,7 +118,7 @@ Return(g) == /\ pc[g] = "ret" /\ pc' = [pc EXCEPT ![g] = "idle"]
              /\ UNCHANGED <<now, up, ttls, gen, nobj, objs, okey, olock, cache, key, ent, got, fetched, upq, upqAt, hit, cancelled>>
 
 \* ---- environment
-Advance == /\ now < MaxNow /\ \A g \in Gs : pc[g] # "store" /\ now' = now + 1
+Advance == /\ now < MaxNow /\ (\A g \in Gs : pc[g] # "store") /\ now' = now + 1
            /\ UNCHANGED <<up, ttls, gen, nobj, objs, okey, olock, cache, pc, key, ent, got, fetched, upq, upqAt, hit, cancelled, last>>
 Change(k) == /\ gen[k] < MaxGen /\ gen' = [gen EXCEPT ![k] = gen[k] + 1]
              /\ UNCHANGED <<now, up, ttls, nobj, objs, okey, olock, cache, pc, key, ent, got, fetched, upq, upqAt, hit, cancelled, last>>
